@@ -94,14 +94,15 @@ impl CommandAcknowledgement {
 }
 
 impl CommandAcknowledgementHandle {
-    /// Marks the flag to indicate that the command execution is done and changes the `CommandStatus`
+    /// Changes the `CommandStatus` and then marks the flag to indicate that the command execution is done.
+    /// The status is stored before the flag, so a poll that sees the flag never reads the placeholder `Pending` status.
     pub(crate) fn done(&self, status: CommandStatus) {
-        #[cfg(feature = "cached_verif")]
-        crate::cache::verif::point("ack.flag");
-        self.done.store(true, Ordering::Release);
         #[cfg(feature = "cached_verif")]
         crate::cache::verif::point("ack.status");
         *self.status.lock() = status;
+        #[cfg(feature = "cached_verif")]
+        crate::cache::verif::point("ack.flag");
+        self.done.store(true, Ordering::Release);
         #[cfg(feature = "cached_verif")]
         crate::cache::verif::point_need("ack.wake", || format!("ackwaker:{}", self as *const Self as usize));
         if let Some(waker) = &self.waker_state.lock().waker {
